@@ -96,4 +96,18 @@ def run(out, tier, seed):
     rng = random.Random(seed)
     for i in range(1500 if quick else 20000):
         jobs.append({"cfg": {"vocab": ["plain", "falsy", "hostile"][i % 3]}, "events": random_history(rng, i % 2 == 1)})
+    # the wrapper over a store that is not context aware (SimpleMemory): the same histories folded onto one graph
+    def fold(evs):
+        out_ = []
+        for e in evs:
+            e = dict(e)
+            e.pop("how", None)
+            if "g" in e:
+                e["g"] = "g1"
+            if "quads" in e:
+                e["quads"] = [list(x) for x in sorted({tuple(q[:3] + ["g1"]) for q in e["quads"]})] if e["op"] == "init" else [q[:3] + ["g1"] for q in e["quads"]]
+            out_.append(e)
+        return out_
+    for i in range(300 if quick else 4000):
+        jobs.append({"cfg": {"vocab": ["plain", "falsy"][i % 2], "store": "SimpleMemory"}, "events": fold(random_history(rng, i % 2 == 1))})
     out.conform(__name__, TRACE, jobs, nontrivial=nontrivial, chunk=2500)
